@@ -176,6 +176,29 @@ def branch_script(nodes):
         k = n["k"]
         if k == "step" and not n.get("fail") and n.get("sem") != "AMO":
             atoms.append("step")
+        elif k == "step" and n.get("sem") != "AMO" and n.get("fail") and n.get("strategy") != "pkg":
+            # attempt a fails iff fail == -1 or a <= fail; the strategy allows `max` attempts; attempts >= 2 are found READY
+            f, m = n["fail"], n.get("max", 1)
+            a = 1
+            while True:
+                fails = f == -1 or a <= f
+                first = a == 1
+                if not fails:
+                    atoms.append("step" if first else "sretry")
+                    break
+                if a < m:
+                    atoms.append("sfail" if first else "sretryfail")
+                    a += 1
+                    continue
+                atoms.append("sfinal" if first else "sretryfinal")
+                if n.get("caught"):
+                    break
+                atoms.append("fail")            # the error leaves the branch
+                return atoms
+        elif k == "wfc" and n.get("polls", 1) == 1 and not n.get("fail_at"):
+            atoms.append("step")                # one poll: START, check function, SUCCEED
+        elif k == "wfc" and n.get("polls", 1) == 2 and not n.get("fail_at"):
+            atoms += ["sfail", "step"]          # first poll: START, check, RETRY, park; second: START again, check, SUCCEED
         elif k == "cb" and not n.get("between"):
             atoms.append("susp")
             return atoms
@@ -228,7 +251,7 @@ def convert_inv(execution, inv_rec):
     scripts = []
     for bi, body in enumerate(node["branches"]):
         a = branch_script(body)
-        if not (a and a[-1] == "susp"):
+        if not (a and a[-1] in ("susp", "fail")):
             a.append("fail" if bi in braise else "ok")
         scripts.append(a)
     if node.get("large_item") or node.get("large_items"):
@@ -264,6 +287,8 @@ def convert_inv(execution, inv_rec):
                     continue
                 if st is not None:
                     raise Unsupported(f"operation in state {st} at the start of the invocation")
+                if n["k"] not in ("step", "wait", "cb") or n.get("fail") or n.get("sem") == "AMO":
+                    raise Unsupported("retrying operation in a later invocation")
                 keep.append({"step": "step", "wait": "tsusp", "cb": "susp"}[n["k"]])
                 if n["k"] == "cb":
                     break
@@ -310,7 +335,7 @@ def convert_inv(execution, inv_rec):
                 out.append(ev("Ckpt", i=thread_branch[x["th"]], k="?", rej=True))
                 continue
             if oid in step_parent:
-                k = "start" if x["action"] == "START" else ("succeed" if x["action"] == "SUCCEED" else x["action"])
+                k = {"START": "start", "SUCCEED": "succeed", "RETRY": "retry", "FAIL": "fail"}.get(x["action"], x["action"])
                 if x["rejected"]:
                     k = "step?"
                 if x["typ"] not in ("STEP", "?"):
